@@ -2,6 +2,7 @@ import SnootyVerif.Proofs.EventWalk
 import SnootyVerif.Gen.Guards
 import SnootyVerif.Gen.Handlers
 import SnootyVerif.Proofs.Handlers
+import SnootyVerif.Proofs.TitleInject
 import SnootyVerif.Properties.C06
 import SnootyVerif.Properties.C07
 import SnootyVerif.Properties.C10
@@ -108,6 +109,42 @@ theorem scan_no_stop_refuted :
     (scanLoopNoStop ["tabs", "tabs", "procedure"] 0 ["tabs", "tab", "tabs", "tab", "procedure", "step", "procedure"]).toOption = none
     ∧ (scanLoopNoStop ["tabs", "tabs", "procedure"] 0 ["tabs", "tab", "tabs", "tab", "procedure"]).toOption = some true := by
   decide
+
+end
+
+/-! ## the fourth unbounded recursion: title injection of the reference pass -/
+
+section
+open SnootyVerif.TitleInject
+
+/-- what `without_ref_roles` returns holds no cross-reference role, whatever the title looked like -/
+theorem injected_title_has_no_reference (own : String) (title : List N) : hasRefL (stripL own title) = false :=
+  stripL_noRef own title
+
+/-- **The reference pass terminates** (code after the fix): walking any tree, giving every text-less reference the
+stripped title of its target and descending into what was injected, never exhausts a recursion budget of
+`size of the tree + largest stripped title` - even when titles contain references to themselves or to each other. -/
+theorem reference_pass_terminates (titles : Titles) (M : Nat) (hM : TitlesBounded titles M) (n : N) :
+    ∃ r, resolve true titles (size n + M) n = some r :=
+  resolve_terminates titles M hM n (size n + M) (Nat.le_refl _)
+
+/-- before the fix: a heading that refers to its own label exhausts EVERY recursion limit (Python: RecursionError) -/
+theorem reference_pass_diverged_before_fix (fuel : Nat) : resolve false selfTitles fuel (.ref "a" []) = none :=
+  resolve_unstripped_diverges fuel
+
+/-- … and the same input after the fix: the reference is given the title without itself -/
+example : (resolve true selfTitles 3 (.wrap [.text "See ", .ref "a" [], .text " here"])).map render =
+    some ["<", "See ", "[", "a", "]", " here", ">"] := by
+  simp [resolve, resolveL, selfTitles, stripL, strip, render, renderL]
+example : (resolve true (fun t => if t = "a" then some [.text "See ", .ref "a" [], .wrap [.ref "b" [.text "x"]]] else none) 4 (.ref "a" [])).map render =
+    some ["[", "a", "See ", "<", "x", ">", "]"] := by
+  simp [resolve, resolveL, stripL, strip, render, renderL]
+example : TitlesBounded selfTitles 0 := by
+  intro t title h
+  unfold selfTitles at h
+  split at h
+  · next ht => cases h; subst ht; simp [stripL, strip, sizeL]
+  · cases h
 
 end
 
